@@ -104,3 +104,20 @@ pub fn snapshot() -> Counters {
         ops: OPS.load(Relaxed),
     }
 }
+
+/// Direct access to the per-backend scanners.
+pub use crate::simd::verif_scan as scan;
+
+/// The four byte-class predicates used by the parser.
+pub fn is_method_token(b: u8) -> bool {
+    crate::is_method_token(b)
+}
+pub fn is_uri_token(b: u8) -> bool {
+    crate::is_uri_token(b)
+}
+pub fn is_header_name_token(b: u8) -> bool {
+    crate::is_header_name_token(b)
+}
+pub fn is_header_value_token(b: u8) -> bool {
+    crate::is_header_value_token(b)
+}
